@@ -1,6 +1,7 @@
 package storeworld
 
 import (
+	"bytes"
 	"context"
 	"encoding/json"
 	"errors"
@@ -38,6 +39,9 @@ type RecCache struct {
 	FailWrites map[int]bool // indices of Write calls that fail
 	ReadErr    bool
 	Reads      int
+
+	retained    []byte // the slice handed to the last successful Write
+	retainedIdx int
 }
 
 func (c *RecCache) Write(data []byte) error {
@@ -48,9 +52,13 @@ func (c *RecCache) Write(data []byte) error {
 	// a park point: when (and only when) the store writes without holding its
 	// lock, another install's write can overtake this one
 	c.w.S.Park("cache", "write", nil, nil, nil)
+	c.checkRetained()
 	c.mu.Lock()
 	idx := len(c.Writes)
 	fail := c.FailWrites[idx]
+	if !fail {
+		c.retained, c.retainedIdx = data, idx
+	}
 	c.Writes = append(c.Writes, CacheWrite{Stamp: c.w.Stamp(), Data: append([]byte{}, data...), Err: fail,
 		Clock: c.w.NowFn().Unix(), InPoll: c.w.InFlight() > 0 || isRoundTask(c.w.S.CurTask().Name), Task: c.w.S.CurTask().Name})
 	c.mu.Unlock()
@@ -60,6 +68,25 @@ func (c *RecCache) Write(data []byte) error {
 	}
 	c.w.S.Log("cache write #%d %d bytes", idx, len(data))
 	return c.Inner.Write(data)
+}
+
+// checkRetained: the bytes handed to a successful Write are the cache's from
+// then on (the package's own MemCache keeps the very slice): they must still
+// be what was written.
+func (c *RecCache) checkRetained() {
+	if c.w.Prop != "C13" && c.w.Prop != "C11" {
+		return
+	}
+	c.mu.Lock()
+	defer c.mu.Unlock()
+	if c.retained == nil || c.retainedIdx >= len(c.Writes) {
+		return
+	}
+	if want := c.Writes[c.retainedIdx].Data; !bytes.Equal(c.retained, want) {
+		c.w.S.Fail(c.w.Prop+".cache-retained", fmt.Sprintf("the cache contents changed after Cache.Write #%d returned: the store modified the bytes it had handed to the cache (a cache may keep the slice, as MemCache does); the cache now holds %q, written was %q",
+			c.retainedIdx, trunc(c.retained), trunc(want)))
+		c.retained = nil
+	}
 }
 
 func (c *RecCache) Read() ([]byte, error) {
@@ -145,6 +172,9 @@ type World struct {
 	S    *kernel.Sim
 	T    *kernel.Tape
 	Prop string
+	// OnlyKinds, if set, restricts the oracles that count in this run
+	OnlyKinds map[string]bool
+	failN     int // failures rendered by the in-process HTTP service
 
 	Svc    *Svc
 	Cache  *RecCache
@@ -204,6 +234,9 @@ func (w *World) Tracef(format string, a ...any) {
 
 // Fail records a violation of the world's property.
 func (w *World) Fail(kind, format string, a ...any) {
+	if w.OnlyKinds != nil && !w.OnlyKinds[kind] && kind != "harness" {
+		return // another property's business in this scenario
+	}
 	w.S.Fail(w.Prop+"."+kind, fmt.Sprintf(format, a...))
 }
 
